@@ -220,8 +220,11 @@ class Host:
     """a program on disk, imported under unique module names; `close()` removes it."""
     _n = 0
 
-    def __init__(self, files, nosource=()):
-        """`nosource`: relative paths of `files` that are NOT written to disk but compiled from the string, with
+    def __init__(self, files, nosource=(), aux=()):
+        """`aux`: relative paths of `files` that are not imported but compiled (from the file on disk, source
+        available) and handed to every module as `_AUX[<name>]`: host code runs them with `exec(_AUX['a'], {})`, so a
+        MODULE-level frame of that file is traced.
+        `nosource`: relative paths of `files` that are NOT written to disk but compiled from the string, with
         that path as their file name: `inspect.getsourcelines` of their frames raises OSError."""
         self.dir = tempfile.mkdtemp(prefix='vhost_')
         self.mods = {}
@@ -236,13 +239,18 @@ class Host:
             os.makedirs(os.path.dirname(p), exist_ok=True)
             with open(p, 'w') as f:
                 f.write(src)
+        self.aux = {}
+        for rel in aux:
+            self.aux[os.path.basename(rel)[:-3]] = compile(files[rel], os.path.join(self.dir, rel), 'exec')
         for rel in files:
             p = os.path.join(self.dir, rel)
             name = 'm0x' if rel != os.path.basename(rel) else os.path.basename(rel)[:-3]
+            if rel in aux:
+                continue
             if rel in nosource:
                 import types
                 mod = types.ModuleType('vhost%d_%s' % (Host._n, name))
-                mod.__dict__.update(_ARR=self.arr, _TL=self.tl, _dec=self.dec, _HOOK=self.hook)
+                mod.__dict__.update(_ARR=self.arr, _TL=self.tl, _dec=self.dec, _HOOK=self.hook, _AUX=self.aux)
                 exec(compile(files[rel], p, 'exec'), mod.__dict__)
                 self.mods[name] = mod
                 self.paths[name] = p
@@ -253,6 +261,7 @@ class Host:
             mod.__dict__['_TL'] = self.tl
             mod.__dict__['_dec'] = self.dec
             mod.__dict__['_HOOK'] = self.hook
+            mod.__dict__['_AUX'] = self.aux
             spec.loader.exec_module(mod)        # not traced: runs on the harness thread before installation
             self.mods[name] = mod
             self.paths[name] = p
@@ -313,10 +322,11 @@ class Recorder:
     """the reference: every event Python delivers to a thread while it runs its entry point, with frame identity
     (host frames: their invocation number `k`; other frames: numbered from 1000000 by call order)."""
 
-    def __init__(self, host):
+    def __init__(self, host, blocks=False):
         self.host = host
         self.events = {}        # thread name -> list of event dicts
         self.other = {}         # thread name -> (stack of ids of non-host frames, counter)
+        self.blocks = {} if blocks else None     # code object -> (first line, number of lines) | None
 
     def trace(self, frame, event, arg):
         t = getattr(self.host.tl, 'name', None)
@@ -341,6 +351,17 @@ class Recorder:
              'arg': code, 'argtext': text, 'lasti': frame.f_lasti}
         if is_host and event in ('line', 'call'):
             e['locals'] = sorted(frame.f_locals.keys())
+        if is_host and self.blocks is not None:
+            # what inspect.getsourcelines gives for the frame (a nameless method location asks for it)
+            c = frame.f_code
+            if c not in self.blocks:
+                try:
+                    import inspect
+                    lines, start = inspect.getsourcelines(frame)
+                    self.blocks[c] = [start, len(lines)]
+                except Exception:
+                    self.blocks[c] = None
+            e['block'] = self.blocks[c]
         self.events.setdefault(t, []).append(e)
         return self.trace
 
@@ -371,7 +392,7 @@ class Obs:
         if f is None:
             return None
         k = f.f_locals.get('k')
-        return k if isinstance(k, int) else None
+        return k if isinstance(k, int) else 999999
 
     def note(self, kind, tp, **kw):
         f = host_frame(self.host)
@@ -492,6 +513,10 @@ def tp_location(tp):
     a = tp.get('args', {})
     if tp.get('capture') == 'method' or 'method_name' in a:
         return ('func', tp['path'], a.get('method_name') or tp.get('method_name'))
+    if tp.get('nameless'):
+        # a method tracepoint WITHOUT a method name on a file WITH source: the property speaks of method tracepoints
+        # with a method name only; by "no other trace event causes any tracepoint action" it never acts
+        return ('nameless', tp['path'])
     if tp.get('unmatchable'):
         # a method tracepoint WITHOUT a method name aimed at a file whose source is not available: its location
         # cannot be worked out (at_location raises); it never acts and must not disturb the others
@@ -547,9 +572,10 @@ def model_effects(tp, kind):
     return []
 
 
-def model_tp(idx, tp):
+def model_tp(idx, tp, blocks=None):
     loc = tp_location(tp)
     l = ({'t': 'func', 'path': loc[1], 'name': loc[2]} if loc[0] == 'func'
+         else {'t': 'nameless', 'path': loc[1], 'blocks': (blocks or {}).get(loc[1], [])} if loc[0] == 'nameless'
          else {'t': 'nosource', 'path': loc[1]} if loc[0] == 'nosource'
          else {'t': 'line', 'path': loc[1], 'line': loc[2]})
     return {'loc': l, 'actions': tp_model_actions(idx, tp)}
@@ -874,7 +900,7 @@ def invocations(events):
 
 def matches(loc, e):
     base = os.path.basename(e['path'])
-    if loc[0] == 'nosource':
+    if loc[0] in ('nosource', 'nameless'):
         return False
     if loc[0] == 'line':
         return e['kind'] == 'line' and base == loc[1] and e['line'] == loc[2]
@@ -1137,11 +1163,11 @@ FIRED = ('snap', 'log', 'metric', 'span-open', 'cap-open')
 def run_case(case, hooks=False):
     """run one case: the reference run (recorder only), then the run under the real agent.  Returns the canonical
     observation."""
-    host = Host(case['files'], case.get('nosource', ()))
+    host = Host(case['files'], case.get('nosource', ()), case.get('aux', ()))
     r = None
     try:
         entries = [tuple(e) for e in case['entries']]
-        rec = Recorder(host)
+        rec = Recorder(host, blocks=any(tp.get('nameless') for tp in case['tps']))
         before = after = None
         state = {'start_set': {}, 'end_set': {}}
         holder = {}
@@ -1381,7 +1407,37 @@ def run_request(case, obs, only=None, thread=None, lo=0, hi=None):
     rr = random.Random(case.get('model_seed', 0))
     total = sum(len(x['events']) for x in threads)
     sched = [rr.randrange(len(threads)) for _ in range(total)] if threads else []
-    return {'op': 'run', 'resp': [model_tp(i, tp) for i, tp in resp],
-            'custom': [model_tp(i, tp) for i, tp in custom], 'threads': threads, 'sched': sched}
+    blocks = source_blocks(obs)
+    return {'op': 'run', 'resp': [model_tp(i, tp, blocks) for i, tp in resp],
+            'custom': [model_tp(i, tp, blocks) for i, tp in custom], 'threads': threads, 'sched': sched}
+
+
+def source_blocks(obs):
+    """per file name: [co_name, first line, number of lines] of the code scopes that ran (inspect.getsourcelines)"""
+    out = {}
+    for evs in obs.get('ref', {}).values():
+        for e in evs:
+            b = e.get('block')
+            if b:
+                row = [e['func'], b[0], b[1]]
+                lst = out.setdefault(os.path.basename(e['path']), [])
+                if row not in lst:
+                    lst.append(row)
+    return out
+
+
+def nameless_instance(case, obs):
+    """instance of C03/nameless-method-location: a method tracepoint without a method name is configured for a file
+    with source and some event of that file has a line number that is not before the end of the source block of its
+    frame (a module-level frame at its last line) — the location says "here" there, whatever the event."""
+    paths = {tp['path'] for tp in case['tps'] if tp.get('nameless')}
+    if not paths:
+        return False
+    for evs in obs.get('ref', {}).values():
+        for e in evs:
+            b = e.get('block')
+            if b and os.path.basename(e['path']) in paths and b[0] <= e['line'] >= b[0] + b[1]:
+                return True
+    return False
 
 
